@@ -29,7 +29,7 @@ pub fn generate(profile: &str, tier: Tier, seed: u64) -> Scenario {
     let mut rng = Rng::new(seed);
     match profile {
         "C04" => Scenario::F(f::generate(&mut rng, tier)),
-        "C05" | "C06" | "C16" | "C16-huge" | "C17" => Scenario::R(r::generate(&mut rng, tier, profile)),
+        "C05" | "C06" | "C16" | "C16-huge" | "C17" | "C08" | "C08-obst" => Scenario::R(r::generate(&mut rng, tier, profile)),
         other => panic!("unknown profile {}", other),
     }
 }
@@ -53,5 +53,13 @@ pub fn size(scn: &Scenario) -> usize {
     match scn {
         Scenario::F(s) => f::size(s),
         Scenario::R(s) => r::size(s),
+    }
+}
+
+/// Fault-enumeration variants of a scenario, derived from its fault-free execution.
+pub fn variants(profile: &str, scn: &Scenario, base: &Outcome) -> Vec<Scenario> {
+    match (profile, scn) {
+        ("C08", Scenario::R(s)) => r::fault_variants(s, &base.summary.site_hits).into_iter().map(Scenario::R).collect(),
+        _ => vec![],
     }
 }
